@@ -151,6 +151,7 @@ func checkKernel(w *load.World, c *core.Collector, f *asmFunc, props []string) {
 		c.Notef("ASM: %s consults only len(x); equal operand lengths are the callers' obligation (VALID)", f.name)
 	}
 	f = normaliseAddressing(f, px, py, cnt)
+	f = normaliseSplitRegions(f, px, py, cnt)
 	at = func(i int) string { return fmt.Sprintf("%s:%d", rel, f.ins[i].line) }
 	horizontalSum(w, c, f, props)
 	// every instruction is one the two analyses give a meaning to; in particular nothing touches the
@@ -227,6 +228,22 @@ func checkKernel(w *load.World, c *core.Collector, f *asmFunc, props []string) {
 					byteMod[cp] = int64(4) << uint(k)
 					skip[shl] = true
 				}
+			}
+		}
+	}
+	// the remainder taken off the length: MOVQ n,T; ANDQ $2^k-1,T; SUBQ T,n — T is at most 2^k-1,
+	// n a multiple of 2^k, and what is left to process is their sum
+	splitMod := map[string]int64{}
+	for i := 0; i+2 < len(f.ins); i++ {
+		a, b, cc := f.ins[i], f.ins[i+1], f.ins[i+2]
+		if a.op == "MOVQ" && len(a.args) == 2 && a.args[0] == cnt && !strings.Contains(a.args[1], "(") &&
+			b.op == "ANDQ" && len(b.args) == 2 && b.args[1] == a.args[1] &&
+			cc.op == "SUBQ" && len(cc.args) == 2 && cc.args[0] == a.args[1] && cc.args[1] == cnt {
+			if v, ok := imm(b.args[0]); ok && v > 0 && (v+1)&v == 0 && len(wts) == 1 {
+				wts[a.args[1]] = 1
+				hiOf[a.args[1]] = v
+				splitMod[cnt] = v + 1
+				skip[i], skip[i+1], skip[i+2] = true, true, true
 			}
 		}
 	}
@@ -428,7 +445,7 @@ func checkKernel(w *load.World, c *core.Collector, f *asmFunc, props []string) {
 		}
 	}
 	hybrid := len(convAt) > 0
-	if virtual || hybrid || negForm {
+	if virtual || hybrid || negForm || len(splitMod) > 0 {
 		// the count register is not counted down in these forms: that every element is consumed is what
 		// the symbolic traversal below establishes (the limit counters are zero at RET)
 		checkRegisterFlow(w, c, f, "", props)
@@ -966,6 +983,9 @@ func checkKernel(w *load.World, c *core.Collector, f *asmFunc, props []string) {
 		m0 := mods[r]
 		if bm, ok := byteMod[r]; ok {
 			m0 = bm
+		}
+		if sm, ok := splitMod[r]; ok {
+			m0 = sm
 		}
 		entry[0][r] = ival{0, hi, m0}
 	}
@@ -1670,4 +1690,163 @@ func horizontalSum(w *load.World, c *core.Collector, f *asmFunc, props []string)
 	} else {
 		c.Add("ASM", key, core.OK, rel, fmt.Sprintf("%d packed and %d scalar accumulators folded lane by lane", len(wide)+len(packed), len(scalar)), props...)
 	}
+}
+
+// normaliseSplitRegions: the prologue cuts the vectors into a head of whole blocks and a remainder
+// and gives the remainder pointers of its own,
+//
+//	MOVQ n,T; ANDQ $2^k-1,T; SUBQ T,n; LEAQ (px)(n*4),SX; LEAQ (py)(n*4),SY
+//
+// so that the two regions can be walked in either order. Relabel the elements so that whatever
+// region is walked first comes first (the same relabelling for x and y: pairs stay pairs, "every
+// index exactly once" and "nothing beyond the length" are unchanged by it): then SX is px and SY
+// is py, one cursor pair that runs through both regions. That is only the same program if every
+// straight-line block that reads or advances SX/SY takes its elements off T alone and every block
+// that reads or advances px/py takes them off n alone — checked here; anything else is left as it
+// is. The split itself (T <= 2^k-1, n a multiple of 2^k, both of weight one) is read by checkKernel.
+func normaliseSplitRegions(f *asmFunc, px, py, cnt string) *asmFunc {
+	firstLabel := len(f.ins)
+	for _, idx := range f.label {
+		if idx < firstLabel {
+			firstLabel = idx
+		}
+	}
+	mi, ai, si, lx, ly := -1, -1, -1, -1, -1
+	var T, SX, SY string
+	for i := 0; i+2 < firstLabel; i++ {
+		a, b, c := f.ins[i], f.ins[i+1], f.ins[i+2]
+		if a.op == "MOVQ" && len(a.args) == 2 && a.args[0] == cnt && !strings.Contains(a.args[1], "(") &&
+			b.op == "ANDQ" && len(b.args) == 2 && b.args[1] == a.args[1] &&
+			c.op == "SUBQ" && len(c.args) == 2 && c.args[0] == a.args[1] && c.args[1] == cnt {
+			if v, ok := imm(b.args[0]); ok && v > 0 && (v+1)&v == 0 {
+				mi, ai, si, T = i, i+1, i+2, a.args[1]
+			}
+		}
+	}
+	if mi < 0 {
+		return f
+	}
+	for i := si + 1; i < firstLabel; i++ {
+		in := f.ins[i]
+		if len(in.args) == 0 {
+			continue
+		}
+		dst := in.args[len(in.args)-1]
+		if in.op == "LEAQ" && len(in.args) == 2 {
+			if m := memRe.FindStringSubmatch(in.args[0]); m != nil && m[1] == "" && m[3] == cnt && m[4] == "4" {
+				switch {
+				case m[2] == px && lx < 0:
+					lx, SX = i, in.args[1]
+					continue
+				case m[2] == py && ly < 0:
+					ly, SY = i, in.args[1]
+					continue
+				}
+			}
+		}
+		if dst == px || dst == py || dst == cnt || dst == T {
+			return f // moved before the remainder's pointers were taken
+		}
+	}
+	if lx < 0 || ly < 0 || SX == SY || SX == px || SX == py || SY == px || SY == py {
+		return f
+	}
+	// how the remainder's registers are used, and the separation of the two regions per block
+	leaders := map[int]bool{0: true}
+	for _, idx := range f.label {
+		leaders[idx] = true
+	}
+	for i, in := range f.ins {
+		if in.op == "JMP" || in.op == "RET" || (len(in.op) >= 2 && in.op[0] == 'J') {
+			leaders[i+1] = true
+		}
+	}
+	touchesTail, touchesHead, takesT, takesN := false, false, false, false
+	flush := func() bool {
+		ok := !(touchesTail && (takesN || touchesHead)) && !(touchesHead && takesT)
+		touchesTail, touchesHead, takesT, takesN = false, false, false, false
+		return ok
+	}
+	for i, in := range f.ins {
+		if leaders[i] && !flush() {
+			return f
+		}
+		if i == mi || i == ai || i == si || i == lx || i == ly {
+			continue
+		}
+		dst := ""
+		if len(in.args) > 0 && in.op != "CMPQ" && in.op != "TESTQ" && !(len(in.op) >= 2 && in.op[0] == 'J') {
+			dst = in.args[len(in.args)-1]
+		}
+		for ak, a := range in.args {
+			m := memRe.FindStringSubmatch(a)
+			if m == nil {
+				if (a == SX || a == SY) && !(ak == len(in.args)-1 && in.op == "ADDQ") {
+					return f // the remainder's pointers escape into arithmetic
+				}
+				continue
+			}
+			if m[3] == SX || m[3] == SY || ((m[2] == SX || m[2] == SY) && m[3] != "") {
+				return f
+			}
+			if m[2] == SX || m[2] == SY {
+				touchesTail = true
+			}
+			if m[2] == px || m[2] == py {
+				touchesHead = true
+			}
+		}
+		switch dst {
+		case SX, SY:
+			if _, isImm := imm(in.args[0]); in.op != "ADDQ" || !isImm {
+				return f
+			}
+			touchesTail = true
+		case px, py:
+			touchesHead = true
+		case T:
+			takesT = true
+		case cnt:
+			if !(in.op == "MOVQ" && strings.Contains(in.args[0], "(FP)")) {
+				takesN = true
+			}
+		}
+	}
+	if !flush() {
+		return f
+	}
+	ren := func(a string) string {
+		switch a {
+		case SX:
+			return px
+		case SY:
+			return py
+		}
+		if m := memRe.FindStringSubmatch(a); m != nil && (m[2] == SX || m[2] == SY) {
+			base := px
+			if m[2] == SY {
+				base = py
+			}
+			return m[1] + "(" + base + ")"
+		}
+		return a
+	}
+	g := &asmFunc{name: f.name, file: f.file, label: map[string]int{}}
+	newIdx := make([]int, len(f.ins)+1)
+	for i, in := range f.ins {
+		newIdx[i] = len(g.ins)
+		if i == lx || i == ly {
+			continue
+		}
+		n := asmIns{line: in.line, op: in.op}
+		for _, a := range in.args {
+			n.args = append(n.args, ren(a))
+		}
+		g.ins = append(g.ins, n)
+	}
+	newIdx[len(f.ins)] = len(g.ins)
+	for l, idx := range f.label {
+		g.label[l] = newIdx[idx]
+	}
+	return g
 }
